@@ -93,6 +93,11 @@ def d1(prog: Program, chk: Check) -> None:
             if not isinstance(st, (ast.AugAssign, ast.Assign)):
                 continue
             v = st.value
+            if isinstance(v, ast.BinOp) and isinstance(v.op, ast.Mult) and du.node_of(st) is not None \
+                    and not any(_fn(c) == jump for c in ast.walk(v)):
+                # the two terms held in locals first (`jump = lrs(L, Ld); decay = acomm(..)`)
+                from oqv.dataflow import expand as _expand
+                v = _expand(du, du.node_of(st), v, depth=2)
             if not (isinstance(v, ast.BinOp) and isinstance(v.op, ast.Mult)):
                 continue
             # rate * (jump term - 1/2 anticommutator): the factor that holds the jump term
@@ -102,7 +107,7 @@ def d1(prog: Program, chk: Check) -> None:
                 continue
             inner = has_jump[0]
             terms = _split_terms(inner)
-            nid = du.node_of(v)
+            nid = du.node_of(v) if du.node_of(v) is not None else du.node_of(st)
             jump_ok = acomm_ok = False
             base = None
             for (c, t) in terms:
@@ -175,7 +180,11 @@ def d2(prog: Program, chk: Check) -> None:
     for fname, (op, pairs) in want.items():
         u = prog.unit(f"operators:{fname}")
         chk.saw(u)
-        r = [x for x in walk_local(u.node) if isinstance(x, ast.Return)][0].value
+        ret_ = [x for x in walk_local(u.node) if isinstance(x, ast.Return)][0]
+        du_ = DefUse(u, CFG(u.node, exc_edges=False))
+        # temporaries (the identity, the two Kronecker terms) written out
+        from oqv.dataflow import expand as _expand
+        r = _expand(du_, du_.node_of(ret_), ret_.value, depth=4)
         krons = [c for c in ast.walk(r) if isinstance(c, ast.Call) and _fn(c) == "kron"]
         got = []
         for k in krons:
